@@ -187,7 +187,13 @@ inline IResult interp(const LDesc * d, int depth, int idx, const std::vector<lon
     case LK_NN: {
         std::vector<long double> cc(L.n);
         for (int k = 0; k < L.n; ++k) {
-            long double rr = std::nearbyintl(c[k]);  // round half to even (default rounding mode)
+            // an exact tie has two closest lattice points and either is a correct answer (C04): such coordinates are
+            // not put to the implementation by this interpreter
+            if (std::fabs(static_cast<double>(c[k] - std::floor(c[k]) - 0.5L)) == 0.0) {
+                r.in_domain = false;
+                return r;
+            }
+            long double rr = std::nearbyintl(c[k]);
             if (rr < 0) {
                 r.in_domain = false;  // negative lattice indices are outside every generated stack's domain
                 return r;
